@@ -112,15 +112,15 @@ func genC26(t *rapid.T) c26Case {
 	regime := rapid.SampledFrom([]string{"mixed", "mixed", "cluster", "dust-withdrawal", "fee-limit", "big-and-small"}).Draw(t, "regime")
 	// Size bounds: a first pass that finds nothing visits min(2^n, 10^6) subsets and classifies every
 	// selected script again at each node (~1 us each), so n is kept small; only the thorough tier
-	// occasionally uses sets large enough to exhaust the 10^6-try budget (several seconds per search).
+	// occasionally (1 in 5000 cases) uses sets large enough to exhaust the 10^6-try budget (several seconds per search).
 	maxN := ev.Scale(10, 12)
 	if rapid.IntRange(0, 9).Draw(t, "larger") == 0 {
-		maxN = ev.Scale(14, 18)
+		maxN = ev.Scale(14, 15)
 	}
 	kindMode := rapid.SampledFrom([]string{"any", "any", "witness-only", "big-p2sh"}).Draw(t, "kindmode")
 	minN := 0
-	if ev.Thorough() && rapid.IntRange(0, 2999).Draw(t, "huge") == 0 {
-		minN, maxN, kindMode = 24, 40, "witness-only"
+	if ev.Thorough() && rapid.IntRange(0, 4999).Draw(t, "huge") == 0 {
+		minN, maxN, kindMode = 24, 32, "witness-only"
 	}
 	nU := rapid.IntRange(minN, maxN).Draw(t, "nutxo")
 	base := logUniform(546, 1000000000).Draw(t, "base")
@@ -878,7 +878,7 @@ func runC26(ctx *ev.Ctx, c c26Case) {
 func TestC26(t *testing.T) {
 	ev.Drive(t, "C26",
 		"cases: an m-of-n redeem script (n<=7) registered with generated fee rate (1..500) and minimum change (2000..10^6) through the real contracts, "+
-			"a UTXO set of 0..10 outputs (one in ten up to 14; thorough 12/18 and rarely 24..40, which exhausts the first pass's 10^6-try budget) with log-uniform / clustered / one-huge values and P2WSH, P2SH and bare-multisig scripts "+
+			"a UTXO set of 0..10 outputs (one in ten up to 14; thorough 12/15 and rarely 24..32, which exhausts the first pass's 10^6-try budget) with log-uniform / clustered / one-huge values and P2WSH, P2SH and bare-multisig scripts "+
 			"(incl. 'largest outputs are P2SH'), then 1..5 steps: withdrawals through chooseUtxos or BTCHandler.MakeTransaction with payments that are subset sums, "+
 			"subset sums short by less than the minimum change, fee-sized, below the minimum change, a quarter of the largest output, the total, above the total; and deposits. "+
 			"non-trivial: some withdrawal selected >=3 inputs or its total lies outside the first pass's window (total != payment and total > 4*payment), i.e. it was made by the second pass; distinct by JSON encoding of the case",
